@@ -350,7 +350,7 @@ def has_other(j):
 def gen_cases(rng, n_ir, trigger_docs=False):
     cases = []
     for _ in range(n_ir):
-        ir = G.gen_ir(rng, ftype=rng.choice(["static", "static", "self", "cls"]), trigger_docs=trigger_docs)
+        ir = G.gen_ir(rng, ftype=rng.choice(["static", "static", "self", "cls"]), trigger_docs=trigger_docs, punct=0.0 if trigger_docs else 0.15)
         for fmt in R.FORMATS:
             for cfg in CFGS[fmt]:
                 cases.append((fmt, cfg, ir))
